@@ -2440,3 +2440,12 @@ def binop(interp, op, a, b, inplace=False):   # noqa: F811
 def _super(interp, cls=None, obj=None):
     """super(C, self): calls on the proxy are resolved by contracts named 'Super.<method>'"""
     return interp.ctx.obj("Super", {"obj": obj, "cls": getattr(cls, "__name__", str(cls))})
+
+
+class SIter(Sym):
+    """a symbolic iterable of `n` items given by getter(i) (e.g. the chunks of a generator contract)"""
+
+    def __init__(self, n, getter, info=None):
+        self.n = to_z3(n)
+        self.getter = getter
+        self.info = info or {}
